@@ -1389,9 +1389,19 @@ NUM_TARGETS = {
                  methods=['get_weight_for_left_and_right_support_point', 'get_final_weights'],
                  attrs={'left_point': FLOAT, 'right_point': FLOAT, 'width': FLOAT},
                  write_only=['extrapolated_weights_dict']),
+            # the containers: the normalisation of the grid levels (pure index recursion).  The slice objects are outside the
+            # subset (Function objects, adjacency), so the RESULTS of the argument-less accessors self.get_grid(),
+            # self.get_grid_levels() and of the size assert self.__assert_size() (math.log(..).is_integer()) are parameters
+            # (`opaque`: option T, None = the accessor raises; assumed pure - calling twice gives the same result)
+            dict(name='ExtrapolationGridSliceContainer', mode='param', methods=['get_normalized_grid_levels'],
+                 attrs={'call_get_grid': ('opt', ('list', FLOAT)), 'call_get_grid_levels': ('opt', ('list', INT)),
+                        'call___assert_size': ('opt', NONE)},
+                 opaque={'get_grid': ('list', FLOAT), 'get_grid_levels': ('list', INT), '__assert_size': NONE}),
         ],
-        # the recursion halves nothing but shrinks stop_index - start_index in every call: at most len(grid_levels) calls
-        fuel={'ExtrapolationGrid.__compute_support_sequence_rec': 'S (length self_grid_levels)'}),
+        # the recursion halves nothing but shrinks stop_index - start_index in every call: at most len(grid_levels) calls;
+        # __get_normalized_grid_levels halves stop - start: at most stop + 1 nested calls
+        fuel={'ExtrapolationGrid.__compute_support_sequence_rec': 'S (length self_grid_levels)',
+              'ExtrapolationGridSliceContainer.__get_normalized_grid_levels': 'S (Z.to_nat (py_int_of_float stop))'}),
 }
 
 BUILTINS_USED = ['len', 'sum', 'abs', 'min', 'max', 'range', 'print', 'super', 'tuple', 'list', 'set', 'map', 'float', 'int',
@@ -2636,6 +2646,17 @@ class NumFnTranslator(FnTranslator):
                 g = tr.resolve(ci, m)
                 self.need(g is not None and g.kind == 'static', c, 'call of %s.%s (not a translated static method)' % (v.id, m))
                 return self.call_unit(g, None, c, env)
+            if isinstance(v, ast.Name) and v.id == 'self' and self.f.kind == 'method' and self.f.cls.mode == 'param' \
+                    and 'self' not in env and m in self.f.cls.cfg.get('opaque', {}):
+                # an accessor outside the subset, declared opaque: its result is a parameter (option T, None = it raises)
+                self.need(not c.args and not c.keywords, c, 'opaque accessor self.%s called with arguments' % m)
+                a = 'call_' + m
+                self.need(a in self.f.cls.cfg['attrs'], c, 'opaque accessor %s without declared parameter' % m)
+                if a not in self.f.self_attrs_new:
+                    self.f.self_attrs_new.append(a)
+                tmp = self.temp()
+                rt = self.f.cls.cfg['opaque'][m]
+                return [(tmp, 'self_%s' % a)], ('tt' if rt == NONE else tmp), rt
             if isinstance(v, ast.Name) and v.id == 'self' and self.f.kind == 'method' and self.f.cls.mode == 'param':
                 g = tr.param_unit(self.f.cls, m, c, within=getattr(self.f, 'defcls', self.f.cls))
                 self.need(g is not None, c, 'call of self.%s: not among the translated methods of %s and its listed bases'
